@@ -152,7 +152,7 @@ def gen_source(rng, path, letter, off_min, boundaries, n, relayed=False):
 
 def store(rng, s):
     """optionally compress: header mtime = the world's mtime, or 0 with the file mtime carrying it"""
-    form = rng.choice(("plain", "plain", "gz_header", "gz_header0", "bz2", "xz", "tar"))
+    form = rng.choice(("plain", "plain", "gz_header", "gz_header0", "bz2", "xz", "tar", "lz4"))
     mt = s.mtime
     if form == "plain":
         return
@@ -170,6 +170,9 @@ def store(rng, s):
     elif form == "xz":
         s.stored = world.to_xz(s.plain, 0)
         s.path += ".xz"
+    elif form == "lz4":
+        s.stored, _ = world.random_container(rng, "lz4", s.plain, 0, s.path)
+        s.path += ".lz4"
     else:
         base = s.path
         s.stored = world.to_tar([(base, s.plain, mt)], rng.choice(("ustar", "gnu", "pax")))
